@@ -605,7 +605,8 @@ func (e stakingCustomPrecompiledContractRoRewardOf) Execute(_ corevm.ContractRef
 		return nil, err
 	}
 
-	resReward, err := distkeeper.NewQuerier(dk).DelegationRewards(ctx, &disttypes.QueryDelegationRewardsRequest{
+	queryCtx, _ := ctx.CacheContext() // the querier increments validator period, must not persist
+	resReward, err := distkeeper.NewQuerier(dk).DelegationRewards(queryCtx, &disttypes.QueryDelegationRewardsRequest{
 		DelegatorAddress: sdk.AccAddress(delegatorAddr.Bytes()).String(),
 		ValidatorAddress: valAddrStr,
 	})
@@ -663,7 +664,8 @@ func (e stakingCustomPrecompiledContractRoRewardsOf) Execute(_ corevm.ContractRe
 }
 
 func (e stakingCustomPrecompiledContractRoRewardsOf) getTotalRewards(ctx sdk.Context, addr common.Address, bondDenom string) (sdkmath.Int, error) {
-	resRewards, err := distkeeper.NewQuerier(e.contract.keeper.distKeeper).DelegationTotalRewards(ctx, &disttypes.QueryDelegationTotalRewardsRequest{
+	queryCtx, _ := ctx.CacheContext() // the querier increments validator period, must not persist
+	resRewards, err := distkeeper.NewQuerier(e.contract.keeper.distKeeper).DelegationTotalRewards(queryCtx, &disttypes.QueryDelegationTotalRewardsRequest{
 		DelegatorAddress: sdk.AccAddress(addr.Bytes()).String(),
 	})
 	if err != nil {
@@ -1162,7 +1164,8 @@ func (e stakingCustomPrecompiledContractRwWithdrawRewards) withdrawRewards(ctx s
 		return false, err
 	}
 
-	allRewards, err := distkeeper.NewQuerier(dk).DelegationTotalRewards(ctx, &disttypes.QueryDelegationTotalRewardsRequest{
+	queryCtx, _ := ctx.CacheContext() // the querier increments validator period, must not persist
+	allRewards, err := distkeeper.NewQuerier(dk).DelegationTotalRewards(queryCtx, &disttypes.QueryDelegationTotalRewardsRequest{
 		DelegatorAddress: delegatorAddrStr,
 	})
 	if err != nil {
